@@ -171,6 +171,8 @@ type TermBuilder struct {
 	// LivePred, when set, tells whether the edge pred->blk is live (used to
 	// resolve phis under assumptions).
 	LiveEdge func(from, to *ssa.BasicBlock) bool
+	// PhiResolve, when set, names the operand a phi is known to equal at all of its uses (nil: unknown).
+	PhiResolve func(p *ssa.Phi) ssa.Value
 }
 
 // NewTermBuilder returns a builder for fn.
@@ -361,6 +363,11 @@ func (tb *TermBuilder) build(v ssa.Value) *Term {
 	case *ssa.MultiConvert:
 		return tb.Of(x.X)
 	case *ssa.Phi:
+		if tb.PhiResolve != nil {
+			if rv := tb.PhiResolve(x); rv != nil {
+				return tb.Of(rv)
+			}
+		}
 		var only *Term
 		same := true
 		n := 0
